@@ -297,7 +297,7 @@ def cmp_h2d(case, impl, res):
         got = impl[ax]
         span = float(np.max(np.abs(want))) if len(want) else 1.0
         if len(got) != n or any(abs(a - b) > 1e-9 * max(span, abs(b)) for a, b in zip(got, want)):
-            return f"bin centres {ax}: {got[:3]}.. vs expected {list(want[:3])}.."
+            return f"bin centres {ax}: {got[:3]}.. vs expected {[float(t) for t in want[:3]]}.."
     v = values_np(case)
     if len(impl["layers"]) != len(res["layers"]):
         return f"{len(impl['layers'])} layers, expected {len(res['layers'])}"
@@ -472,9 +472,9 @@ def gen_h2d(r, npts, lane):
         if not fin:
             return {"min": 0.5, "max": 8.0}[which]
         lo, hi = min(fin), max(fin)
-        if lo == hi:
-            hi = lo + abs(lo) + 1.0
         t = r.uniform(0.1, 0.4)
+        if lo == hi:          # a single value: limits on either side of it
+            return lo - t * (abs(lo) + 1.0) if which == "min" else hi + t * (abs(hi) + 1.0)
         return lo + t * (hi - lo) if which == "min" else hi - t * (hi - lo)
     if kind in ("explicit", "empty_explicit"):
         lim = {"xmin": explicit(fx, "min"), "xmax": explicit(fx, "max"), "ymin": explicit(fy, "min"), "ymax": explicit(fy, "max")}
@@ -725,7 +725,10 @@ def thread_lane(ctx, osy, out, src, dist):
                 s["bad"] += 1
                 s["worst_lost_fraction"] = max(s["worst_lost_fraction"], round(1 - got / max(total, 1), 4))
                 within = all(min(1, w) <= g <= w for g, w in zip(impl["counts"], want_counts))
-                if disc != "sharedRMW" or not within:
+                single_ok = summary.get(f"{pat['pattern']}:t1", {"bad": 0})["bad"] == 0
+                # a threading phenomenon the model's discipline does not allow (a difference that is already
+                # there with one thread is an index matter and is reported by the data lanes)
+                if t > 1 and single_ok and (disc != "sharedRMW" or not within):
                     out.disagreements.append(({"pattern": pat["pattern"], "threads": t, "n": len(pat["xs"])},
                                               f"model discipline {disc} predicts the Spec counts for every schedule; impl counted {got} of {total}"))
                 sig = (pat["pattern"],)
@@ -850,6 +853,7 @@ def run(ctx):
     answers = run_geom(lines)
     seen_sig = {}
     viol_count = {}
+    outside = 0
     for c, impl, ans in zip(cases, impls, answers):
         out.evaluations += 1
         key = ":".join(c["tags"])
@@ -858,6 +862,17 @@ def run(ctx):
         dist[f"n<={10 ** len(str(max(n, 1)))}"] = dist.get(f"n<={10 ** len(str(max(n, 1)))}", 0) + 1
         if "err" in ans and ans["err"] == "bad-op":
             raise RuntimeError("driver rejected a case: " + json.dumps(small(c))[:400])
+        if ans.get("err") == "bad-grid":
+            # the limit logic ends with xmin >= xmax (e.g. explicit lower limit above all the data): not a range, outside the claim
+            outside += 1
+            continue
+        if ans.get("err") == "no-range":
+            # automatic limit without any finite value: outside the claim; the code (and the model) refuse
+            outside += 1
+            out.compared += 1
+            if "raised" not in impl:
+                out.disagreements.append((small(c), "automatic limit with no finite value: the model refuses (np.amin of an empty array raises), impl returned a result"))
+            continue
         if c["lane"] != "exact" and ans.get("margin") is not None and Fraction(ans["margin"]) < NEAR_TIE:
             out.near_tie_skipped += 1
             continue
@@ -901,6 +916,7 @@ def run(ctx):
             # the model-as-coded predicted a deviation from the Spec, but not this one
             pass
     out.extra["violation_counts"] = viol_count
+    out.extra["outside_claim"] = outside
     # ---- thread lane and the executable schedule model
     thread_lane(ctx, osy, out, src, dist)
     sched_lane(ctx, out, dist)
